@@ -6,7 +6,7 @@ are wrapped by proxies that record, at every table access, whether the accessing
 Schedules: every 0/1 word up to a depth (exhaustive) for two threads, random longer ones, three threads in the
 thorough tier.  Oracle: every call returns the sequential value and raises nothing; every table access happens under
 the lock."""
-import itertools, random, threading, time
+import itertools, os, random, shutil, tempfile, threading, time
 from . import paths
 from .pipeline import Builder
 from .sym import SymWorld
@@ -90,6 +90,23 @@ class Controller:
                 self.running = want
                 self.cv.notify_all()
         return True
+
+
+class GKey(str):
+    """a string key whose equality test is a gate: another thread may run while a comparison that involves the key is in
+    progress (dictionary probes, comparisons of node hashes that contain the key)"""
+    ctrl = None
+
+    def __eq__(self, other):
+        c = GKey.ctrl
+        if c is not None:
+            c.gate('eq')
+        return str.__eq__(self, other)
+
+    def __ne__(self, other):
+        return not self.__eq__(other)
+
+    __hash__ = str.__hash__
 
 
 class LockProxy:
@@ -177,7 +194,26 @@ def merge_scenario(size):
     return {'k': 'chain', 'flavour': 'chain', 'layers': [{'k': 'merge', 'parts': parts}, t, {'k': 'ram', 'names': ['pair'], 'size': size}]}
 
 
-def run_schedule(desc, plans, schedule):
+def columns_scenario(shard):
+    """Source >> Transform >> CacheColumns: calls for different keys of one shard share the column's RAM table, the disk
+    entry of the shard and the inner graph; gates: the RAM table's lock and every user function"""
+    src = {'k': 'source', 'cls': 'TS', 'ids': ['a', 'b', 'c'], 'fields': {'a': {'args': ['i']}}, 'params': {}, 'cargs': {}, 'defaults': {}}
+    t = {'k': 'transform', 'cls': 'TT', 'fields': {'x': {'args': ['a']}, 'y': {'args': ['a']}}, 'params': {}, 'cargs': {}, 'defaults': {}, 'inherit': True}
+    return {'k': 'chain', 'flavour': 'chain', 'layers': [src, t, {'k': 'columns', 'names': ['x'], 'root': 0, 'shard': shard}]}
+
+
+def run_schedule(desc, plans, schedule, gated_keys=False):
+    if desc['layers'][-1]['k'] == 'columns':
+        os.makedirs(paths.SCRATCH, exist_ok=True)
+        root = tempfile.mkdtemp(prefix='cv-sched-', dir=paths.SCRATCH)
+        try:
+            return _run_schedule(desc, plans, schedule, [root], gated_keys)
+        finally:
+            shutil.rmtree(root, ignore_errors=True)
+    return _run_schedule(desc, plans, schedule, None, gated_keys)
+
+
+def _run_schedule(desc, plans, schedule, roots, gated_keys=False):
     """plans: per thread a list of (field, key); returns (results per thread, access log, completed?)"""
     paths.use_repo()
     from connectome.cache import MemoryCache
@@ -188,7 +224,7 @@ def run_schedule(desc, plans, schedule):
     # gate at the entry of every user function
     orig_fn = world.fn
 
-    b = Builder(world)
+    b = Builder(world, roots=roots) if roots else Builder(world)
     layer = b.layer(desc)
     fns = {}
     for plan in plans:
@@ -204,10 +240,11 @@ def run_schedule(desc, plans, schedule):
             if id(n) in seen or n.is_leaf:
                 continue
             seen.add(id(n))
-            c = getattr(n.edge, 'cache', None)
-            if isinstance(c, MemoryCache) and not isinstance(c._lock, LockProxy):
-                c._lock = LockProxy(ctrl, f'L{len(LockProxy.registry)}')
-                c._cache = TableProxy(c._cache, c._lock, log, ctrl)
+            for attr in ('cache', 'ram'):
+                c = getattr(n.edge, attr, None)
+                if isinstance(c, MemoryCache) and not isinstance(c._lock, LockProxy):
+                    c._lock = LockProxy(ctrl, f'L{len(LockProxy.registry)}')
+                    c._cache = TableProxy(c._cache, c._lock, log, ctrl)
             stack.extend(n.parents)
     # gate user functions: wrap world's call log append
     real_log = world.log
@@ -218,22 +255,40 @@ def run_schedule(desc, plans, schedule):
             list.append(self_inner, item)
     world.log = GateLog(real_log)
     results = [[] for _ in plans]
+    # the node hash every call gets in a sequential execution (computed before the threads start)
+    from .codec import hash_to_json
+    seq_hash = {}
+    for plan in plans:
+        for field, key in plan:
+            try:
+                seq_hash[(field, key)] = canon(hash_to_json(fns[field].get_hash(key)[0].value, world))
+            except Exception as e:
+                seq_hash[(field, key)] = 'ERR ' + exc_name(e)
 
     def worker(tid):
         threading.current_thread().cv_tid = tid
         ctrl.gate('start')
         for field, key in plans[tid]:
             try:
-                results[tid].append({'ok': canon(val_to_json(fns[field](key), world))})
+                arg = GKey(key) if gated_keys and isinstance(key, str) else key     # a fresh, equal object per call
+                try:
+                    h = canon(hash_to_json(fns[field].get_hash(arg)[0].value, world))
+                except Exception as e:
+                    h = 'ERR ' + exc_name(e)
+                results[tid].append({'ok': canon(val_to_json(fns[field](arg), world)), 'hash': h, 'seq_hash': seq_hash[(field, key)]})
             except Exception as e:
                 results[tid].append({'err': exc_name(e) + ': ' + str(e)[:80]})
         ctrl.done()
     threads = [threading.Thread(target=worker, args=(i,), daemon=True) for i in range(len(plans))]
-    for t in threads:
-        t.start()
-    ok = ctrl.drive(threads)
-    for t in threads:
-        t.join(timeout=2)
+    GKey.ctrl = ctrl if gated_keys else None
+    try:
+        for t in threads:
+            t.start()
+        ok = ctrl.drive(threads)
+        for t in threads:
+            t.join(timeout=2)
+    finally:
+        GKey.ctrl = None
     return results, log, ok, ctrl.trace
 
 
@@ -251,8 +306,8 @@ def expected(plans, desc=None):
     return out
 
 
-def check_one(desc, plans, schedule):
-    results, log, ok, trace = run_schedule(desc, plans, schedule)
+def check_one(desc, plans, schedule, gated_keys=False):
+    results, log, ok, trace = run_schedule(desc, plans, schedule, gated_keys)
     problems = []
     if not ok:
         problems.append('the schedule did not complete (deadlock or timeout)')
@@ -262,6 +317,9 @@ def check_one(desc, plans, schedule):
         for r, w, call in zip(rs, ws, plans[tid]):
             if 'err' in r:
                 problems.append(f'thread {tid}: {call[0]}({call[1]!r}) raised {r["err"]}; a sequential execution never raises')
+            elif r.get('hash') != r.get('seq_hash'):
+                problems.append(f'HASH thread {tid}: the node hash of {call[0]}({call[1]!r}) computed while other calls run is {r["hash"][:100]}, '
+                                f'a sequential execution computes {r["seq_hash"][:100]}: an evaluation received the node hash of another computation')
             elif r['ok'] != w:
                 problems.append(f'thread {tid}: {call[0]}({call[1]!r}) returned {r["ok"][:120]}, every sequential execution returns {w[:120]}')
     unlocked = [(what, tid) for what, tid, held in log if not held]
@@ -279,7 +337,14 @@ def run_shard(args):
     keys = ['a', 'b', 1, -1, -2]
     n_threads = 3 if three and rng.random() < 0.5 else 2
     plans = []
-    if rng.random() < 0.3:
+    r = rng.random()
+    if r < 0.25:
+        desc = columns_scenario(rng.choice([None, 2, 3]))
+        for t in range(n_threads):
+            plans.append([('x', rng.choice(['a', 'b', 'c'])) for _ in range(rng.choice([1, 2]))])
+        if len({k for p in plans for _, k in p}) == 1:
+            plans[-1][-1] = ('x', 'b' if plans[0][0][1] == 'a' else 'a')
+    elif r < 0.5:
         desc = merge_scenario(size)
         for t in range(n_threads):
             plans.append([('pair', rng.choice(['a', 'b'])) for _ in range(rng.choice([1, 2]))])
@@ -295,11 +360,17 @@ def run_shard(args):
     for _ in range(extra_random[1]):
         schedules.append([rng.randrange(n_threads) for _ in range(rng.randint(depth, depth * 3))])
     problems, steps = [], 0
+    # keys with gated equality: only string keys, each thread repeating a key (so that memoised comparisons are entered)
+    gated = rng.random() < 0.35
+    if gated:
+        for plan in plans:
+            if len(plan) == 1 or rng.random() < 0.6:
+                plan[:] = [plan[0], plan[0]] if isinstance(plan[0][1], str) else plan
     for s in schedules:
-        pr, n = check_one(desc, plans, s)
+        pr, n = check_one(desc, plans, s, gated)
         steps += n
         for p in pr:
-            problems.append({'desc': desc, 'plans': plans, 'schedule': s, 'msg': p})
+            problems.append({'desc': desc, 'plans': plans, 'schedule': s, 'gated_keys': gated, 'msg': p})
         if problems:
             break
-    return {'scenarios': 1, 'schedules': len(schedules), 'gates': steps, 'threads': n_threads, 'size': str(size)}, problems
+    return {'scenarios': 1, 'schedules': len(schedules), 'gates': steps, 'threads': n_threads, 'size': str(size), 'gated_keys': int(gated)}, problems
